@@ -17,6 +17,7 @@ package main
 //     worker process - is related to one dump (cross-execution relation).
 
 import (
+	"encoding/base64"
 	"fmt"
 	"os"
 	"os/exec"
@@ -235,8 +236,11 @@ func c06RejectedInputs() Harness {
 		m.Entity = []*gtfsrt.FeedEntity{{TripUpdate: &gtfsrt.TripUpdate{Trip: &gtfsrt.TripDescriptor{TripId: sp("a-trip-with-a-rather-long-identifier-0123456789")}}}}
 		return m
 	}())
-	inputs := [][]byte{good[:len(good)/2], good[:len(good)-1], html, html[:33], html[:40], noID, append(append([]byte{}, good...), 0xff, 0xff, 0xff), {}}
-	names := []string{"valid feed cut in half", "valid feed minus its last byte", "HTML error page", "33 bytes of HTML", "40 bytes of HTML", "entity without id (required field)", "valid feed + 3 stray bytes", "empty"}
+	b64 := []byte(base64.StdEncoding.EncodeToString(good))
+	inputs := [][]byte{good[:len(good)/2], good[:len(good)-1], html, html[:33], html[:40], noID, append(append([]byte{}, good...), 0xff, 0xff, 0xff), {},
+		[]byte("Rate limit exceeded. Try again in 30 seconds."), []byte("Unauthorized"), b64, b64[:len(b64)/2], []byte(`{"error":"not found"}`)}
+	names := []string{"valid feed cut in half", "valid feed minus its last byte", "HTML error page", "33 bytes of HTML", "40 bytes of HTML", "entity without id (required field)", "valid feed + 3 stray bytes", "empty",
+		"plain text 'Rate limit exceeded...'", "plain text 'Unauthorized'", "a base64-encoded feed", "half a base64-encoded feed", "a JSON error body"}
 	zip := renderFeed(genStaticFeedN(&Ctx{}, false, baseCounts, nil, nil), presentation{})
 	zinputs := [][]byte{zip[:len(zip)/2], zip[:len(zip)-1], html, append(append([]byte{}, zip[:200]...), zip[260:]...), {}}
 	znames := []string{"archive cut in half", "archive minus its last byte", "HTML error page", "archive with 60 bytes removed", "empty"}
@@ -417,7 +421,7 @@ func c06FeedsWith(startDate, idSuffix string) [][]byte {
 			&gtfsrt.FeedEntity{Id: sp("k-alert"), Alert: &gtfsrt.Alert{
 				ActivePeriod: []*gtfsrt.TimeRange{{Start: u64p(ts), End: u64p(ts + 3600)}, {Start: u64p(ts + 7200)}, {End: u64p(ts + 9000)}},
 				InformedEntity: []*gtfsrt.EntitySelector{{AgencyId: sp("KA")}, {RouteId: sp("KR1"), DirectionId: &u0}, {RouteType: cp32(1)}, {StopId: sp("KS1")},
-					routeOnly("KR2", &u0), routeOnly("KR2", &u1), routeOnly("KR3", &u1), routeOnly("KR1", nil), routeOnly("KR4", nil),
+					routeOnly("KR2", &u0), routeOnly("KR2", &u1), routeOnly("KR3", &u1), routeOnly("KR1", nil), routeOnly("KR4", nil), routeOnly("KR6", nil), routeOnly("KR6", &u0), routeOnly("KR7", &u1), routeOnly("KR7", nil),
 					{Trip: td("K1")}, {Trip: td("K9")}, {Trip: &gtfsrt.TripDescriptor{RouteId: sp("KR5"), DirectionId: &u0, StartTime: sp("10:00:00"), StartDate: sp(startDate)}}, {RouteType: cp32(99)}},
 				Cause: gtfsrt.Alert_CONSTRUCTION.Enum(), Effect: gtfsrt.Alert_NO_EFFECT.Enum(), Url: tr("http://example.com/k"), HeaderText: tr("k header"), DescriptionText: tr("k description")}},
 			&gtfsrt.FeedEntity{Id: sp("k-alert-2"), Alert: &gtfsrt.Alert{InformedEntity: []*gtfsrt.EntitySelector{routeOnly("KR2", &u1), {RouteId: sp("KR3")}, routeOnly("KR3", &u0)}}},
@@ -509,6 +513,13 @@ func c06History(maxLen int) Harness {
 		}
 		desc := cfg.name + ": " + strings.Join(names, " -> ")
 		c.Input(hash64(desc), n >= 2, func() string { return desc })
+		// a result belongs to the caller: it may overwrite everything reachable from the previous result
+		// before the next call (in place "normalisation"); nothing the library keeps may be affected
+		scribblePrevious := n >= 2 && c.Free("caller_overwrites_previous_results_in_place", 2) == 1
+		if scribblePrevious {
+			desc += " [previous results overwritten in place]"
+			c.Witness("previous_result_overwritten_in_place")
+		}
 		shared := cfg.mk()
 		sharedWasNil := shared.Extension == nil
 		tzBefore := shared.Timezone
@@ -527,6 +538,9 @@ func c06History(maxLen int) Harness {
 					desc += fmt.Sprintf(" [Timezone:=%v before call %d]", tzBefore, i)
 					c.Witness("caller_changed_timezone_between_calls")
 				}
+			}
+			if i > 0 && last != nil && scribblePrevious {
+				scribble(last)
 			}
 			in := append([]byte(nil), feeds[f]...)
 			r, err, ok := parseRT(c, in, shared)
@@ -584,6 +598,9 @@ func c06StaticHistory(c *Ctx) {
 		f := c.Free(fmt.Sprintf("call[%d]", i), 3)
 		inherit := c.Free(fmt.Sprintf("call[%d].inherit", i), 2) == 1
 		names = append(names, fmt.Sprintf("%d/inherit=%v", f, inherit))
+		if last != nil {
+			scribble(last)
+		}
 		b := renderFeed(models[f], presentation{})
 		in := append([]byte(nil), b...)
 		r, err, ok := parseStaticGuarded(c, in, gtfs.ParseStaticOptions{InheritWheelchairBoarding: inherit})
@@ -721,8 +738,8 @@ func init() {
 	register(&Check{
 		ID:    "C06",
 		Level: "model_checking",
-		Rule: "(1) every combination of iteration starts at every library map range (choice points owned through the runtime overlay) for a static archive with 3 services/3 shapes/3 trips/3 sibling stops and a realtime message with 3 id-bearing vehicles, 3 trips and an alert with 3 fall-back routes; (2) all call sequences of <= 3 (thorough <= 5) over 8 feeds on ONE shared options/extension object - whose Timezone field the caller may reassign between calls - for each of 30 configurations (nil Extension, explicit no-op, 4 nycttrips with and without Timezone, 24 nyctalerts), and all sequences of <= 3 static parses over 3 archives x inherit option; (3) relation (bytes, configuration) -> dump over every parse of the run, across worker processes; (4) all histories of <= 3 (thorough 4) calls over {static archive in New_York / Kolkata / an unknown zone, realtime feed under New_York / UTC / London / two fixed zones both named EST} each executed in its own pristine process and compared call by call with single-call pristine processes; " +
-			"(5) the same archive / message x 30 configurations parsed under 6 wall clocks (real, 1970, around the first stop time of unassigned NYCT trips, 2100; headers with / without / zero timestamp): identical dumps; the map-order archive also with a 3-cycle, a 2-cycle and a self-parent among its stops; (6) rejected inputs (truncated, HTML, missing required field, stray bytes) with 0 / 1 / 64 bytes of spare capacity: buffer unchanged up to its capacity; " +
+		Rule: "(1) every combination of iteration starts at every library map range (choice points owned through the runtime overlay) for a static archive with 3 services/3 shapes/3 trips/3 sibling stops and a realtime message with 3 id-bearing vehicles, 3 trips and an alert with 3 fall-back routes; (2) all call sequences of <= 3 (thorough <= 5) over 8 feeds on ONE shared options/extension object - whose Timezone field the caller may reassign between calls, and whose earlier results the caller may overwrite in place (every value reachable through pointers and slices) - for each of 30 configurations (nil Extension, explicit no-op, 4 nycttrips with and without Timezone, 24 nyctalerts), and all sequences of <= 3 static parses over 3 archives x inherit option; (3) relation (bytes, configuration) -> dump over every parse of the run, across worker processes; (4) all histories of <= 3 (thorough 4) calls over {static archive in New_York / Kolkata / an unknown zone, realtime feed under New_York / UTC / London / two fixed zones both named EST} each executed in its own pristine process and compared call by call with single-call pristine processes; " +
+			"(5) the same archive / message x 30 configurations parsed under 6 wall clocks (real, 1970, around the first stop time of unassigned NYCT trips, 2100; headers with / without / zero timestamp): identical dumps; the map-order archive also with a 3-cycle, a 2-cycle and a self-parent among its stops; (6) rejected inputs (truncated, HTML, plain text, JSON, base64, missing required field, stray bytes) with 0 / 1 / 64 bytes of spare capacity: buffer unchanged up to its capacity; " +
 			"non-trivial = distinct histories of >= 2 calls or inputs with a >= 3-entry library map; oracle = differential (rotated vs. fixed order, reused vs. fresh object) with content and order compared",
 		Assumptions: []string{"library maps are single-bucket (<= 8 entries) in these inputs, so rotations are all achievable orders; uncontrolled_maps counts any exception", "process-level state (package variables) is exercised by running histories in 16 separate worker processes that must all agree"},
 		Scenarios: func(tier string) []*Scenario {
